@@ -26,7 +26,7 @@ def linkTerm (sc : Nat) (peer : Option Nat) (x : AsE × Nat) : Option Nat :=
 
 /-- all MTU values of one traversed AS entry: link (if any) and the AS-internal MTU (as `u16`) -/
 def mtuTerms (sc : Nat) (peer : Option Nat) (x : AsE × Nat) : List Nat :=
-  (linkTerm sc peer x).toList ++ [x.1.mtu % 2 ^ AS_MTU_CAST_BITS]
+  (linkTerm sc peer x).toList ++ [min x.1.mtu AS_MTU_SAT]
 
 theorem pickHop_eq {sc : Nat} {peer : Option Nat} {x : AsE × Nat} {mtu : Nat} {hf : HopF} {m1 : Nat}
     (h : pickHop sc peer x.1 x.2 mtu = .ok (hf, m1)) :
